@@ -99,6 +99,7 @@ func singleTargets() []Target {
 		argsKeyA,
 		{Coll: "ARGS_GET", Kind: kindRegex, Key: "^a|b$"},
 		{Coll: "ARGS_GET", Kind: kindRegex, Key: "^p/q"},
+		{Coll: "ARGS_GET", Kind: kindRegex, Key: `^q\\`}, // ends with an escaped backslash: /^q\\/
 		{Coll: "ARGS_GET", Kind: kindRegex, Key: "^a|b$", Quoted: true},
 		{Coll: "ARGS_GET", Kind: kindPlain, Key: "a", Quoted: true},
 		{Coll: "ARGS_GET", Count: true},
@@ -137,7 +138,7 @@ func targetLists(thorough bool) [][]Target {
 		}
 	}
 	if thorough {
-		thirds := []Target{singles[1], singles[2], singles[4], exclusions()[1], exclusions()[3]}
+		thirds := []Target{singles[1], singles[2], singles[5], exclusions()[1], exclusions()[3]}
 		for _, a := range singles {
 			for _, b := range seconds {
 				for _, c := range thirds {
